@@ -38,6 +38,10 @@ func drawC07(t *rapid.T, x *X) *Case {
 		c.Input = []byte(string(rs[:gspec.U(t, len(rs), "cut")]))
 	}
 	c.Plan = drawPlan(t, g, 1, true, false)
+	// (a rule that the analysis treats as consuming must consume under every option: a third of
+	// the cases run with Memoize, where a wrong end position of a cached result turns a
+	// consuming rule into an empty match)
+	c.Opts.Memoize = gspec.U(t, 3, "memoize") == 0
 	return c
 }
 
@@ -64,7 +68,19 @@ func checkC07(x *X, c *Case, strict bool) *Outcome {
 		o.Tags = append(o.Tags, "deep_nesting")
 	}
 	budget := safetyBudget(ref)
+	if c.Opts.Memoize {
+		if ex := memoFinding(x, ref, strict); ex != "" {
+			return &Outcome{Excluded: ex}
+		}
+		if ref.Stats.ZeroWidthIters > 0 && x.KF["KF-C16-MEMOZERO"] && !strict {
+			return &Outcome{Excluded: "KF-C16-MEMOZERO"}
+		}
+		o.Tags = append(o.Tags, "memoize")
+	}
 	for _, pk := range livePkgs(x.G) {
+		if c.Opts.Memoize && pk.Optimized {
+			continue
+		}
 		resp, _ := runReal(x, pk, c, budget)
 		o.Evals++
 		if strings.Contains(resp.ErrText, maxExprMsg) {
